@@ -33,6 +33,16 @@ CLAIMED = {
             "eps; ranks capped; operand not written).",
             "does not decide the eps bound in floating point nor QR/SVD accuracy",
             "DESIGN.md section 4 C02"),
+    "C05": ("class-invariant check: constructor coverage (FIELDS), guard table and axis derivation (ESTABLISH), writer "
+            "obligations (PRESERVE), who-may-write over effect summaries (WHO-WRITES), constructor-argument kinds (CTOR-ARG), "
+            "getter copy rule",
+            "Inductive argument over all call histories: the invariant is established by the constructor (validation guards "
+            "dominate the store of the cores; N/M/R derived from the right axes; every leaf branch assigns every field), "
+            "preserved by the only mutators (set_core guards ranks/axis count, re-derives N/M, recomputes shape; reduce_dims "
+            "rebuilds all metadata from the new cores), nobody else writes the fields or a received core list, getters hand out "
+            "copies, and internal constructor calls pass core lists. Each link is an obligation decided on the source.",
+            "does not decide run-time shapes produced by torch; objects whose t.cores the user assigns directly are outside the API",
+            "DESIGN.md section 4 C05"),
     "C06": ("interprocedural alias/mutation effect analysis (origins of tensors, views and lists; bottom-up summaries "
             "over the resolved call graph; who-may-write rule against the documented in-place API)",
             "For every public entry point and every parameter the summary must contain no in-place tensor write, "
@@ -43,6 +53,13 @@ CLAIMED = {
             "decides writes performed by repository code; user callbacks, the C++ extension and user code holding "
             "t.cores are assumed not to write; one named exception (amen_divide final rescale, re-verified each run)",
             "DESIGN.md section 4 C06, section 3 E3"),
+    "C19": ("writer/reader key-table agreement (KEYS), pickle-payload sanitisation rule with provenance of numpy integers "
+            "(PICKLE-SAFE), effect analysis of clone (CLONE-FRESH), per-core wrapper shape rule (WRAPPERS), name resolution",
+            "save and load agree on the dictionary keys in every branch with 'cores' bound to the operand's own core list, load "
+            "rebuilds through TT(list) only; rank/shape lists are pickled as Python ints; clone returns no storage shared with "
+            "the operand; detach/to/cpu/cuda map each core in order through the like-named torch method.",
+            "does not decide torch.save/torch.load bit-identity itself nor device transfers",
+            "DESIGN.md section 4 C19"),
 }
 
 NOT_APPLICABLE = {
